@@ -76,6 +76,8 @@ class PanelCtx:
     def V(self, name):
         if self.values is None:
             return Sym.var(name)
+        if name in self.used_values:
+            return Sym(self.used_values[name])      # one value per name within a run
         if name in self.values:
             v = Fraction(self.values[name])
         else:
@@ -120,15 +122,35 @@ class PanelCtx:
         self.read_stack_calls.append({'stack': stack, 'offset': offset})
         lam = self.lam_for.get(id(stack))
         if lam is None:
-            raise RuntimeError('read_stack stub called with an unregistered stack')
+            # laminate of a sub-component built by the package itself (stiffener base / flange): fresh symbolic ABD
+            k = len(self.lam_for)
+            lam = FakeLam()
+            lam.ABD = sym_ABD('L%d_' % k, self.V)
+            lam.A = lam.ABD[0:3, 0:3]
+            lam.B = lam.ABD[0:3, 3:6]
+            lam.D = lam.ABD[3:6, 3:6]
+            ts = plyts if plyts else ([plyt for _ in stack] if plyt is not None else [self.V('L%d_t' % k)])
+            lam.t = sum(ts)
+            lam.h = lam.t
+            lam.plies = []
+            for q, t in enumerate(ts):
+                ply = FakeLam()
+                ply.t = t
+                ply.QL = np.zeros((5, 5), dtype=object)
+                for (i, j) in ((0, 0), (0, 1), (0, 2), (1, 1), (1, 2), (2, 2)):
+                    ply.QL[i, j] = ply.QL[j, i] = self.V('L%d_q%d_%d%d' % (k, q, i, j))
+                lam.plies.append(ply)
+            lam.calc_equivalent_modulus = lambda: None
+            self.lam_for[id(stack)] = lam
+            self._keep = getattr(self, '_keep', []) + [stack]
         lam.offset_passed = offset
         return lam
 
-    def shadow(self, extra_stubs=None):
+    def shadow(self, extra_stubs=None, policy=None):
         stubs = {'deg2rad': self.deg2rad, 'compmech.composite.laminate.read_stack': self.read_stack_stub}
         if extra_stubs:
             stubs.update(extra_stubs)
-        sh = Shadow(self.kernels, stubs=stubs, policy=self.policy)
+        sh = Shadow(self.kernels, stubs=stubs, policy=policy or self.policy)
         return sh
 
     def override_sections(self, s):
